@@ -1,8 +1,14 @@
 //! Verification hook (compiled only with `--cfg quinn_rs_quinn_verif`).
+//!
+//! Component `stream_sm` (C11): the same interpreter as `flow_recv` (see `flow_recv.rs` for the
+//! op and observation encoding); the C11 generator additionally uses the send-half ops
+//! (open/accept/write/finish/reset/stopped/STOP_SENDING/flush/ack/reset_acked/poll/loss).
 #![allow(missing_docs, dead_code, unused_imports, unreachable_pub, clippy::all)]
 use super::{Ops, Outs};
 
-/// Interpret `ops` for component `comp`; `None` if `comp` is not served by this module.
-pub(crate) fn run(_comp: &str, _ops: &Ops) -> Option<Outs> {
-    None
+pub(crate) fn run(comp: &str, ops: &Ops) -> Option<Outs> {
+    match comp {
+        "stream_sm" => Some(super::flow_recv::interp(ops)),
+        _ => None,
+    }
 }
